@@ -2,6 +2,7 @@ package govc
 
 import (
 	"fmt"
+	"os"
 	"go/constant"
 	"go/token"
 	"go/types"
@@ -69,6 +70,11 @@ func (e *Enc) instr(fr *Frame, st *State, ins ssa.Instruction) {
 		pt := ins.Type().Underlying().(*types.Pointer)
 		obj := e.allocObj(st, pt.Elem())
 		fr.Vals[ins] = &Val{T: e.mkPtr(obj, e.bv64(0))}
+		if addrStaysLocal(ins, map[ssa.Value]bool{}) {
+			fr.localCells = append(fr.localCells, localCell{obj: obj, typ: pt.Elem()})
+		} else if os.Getenv("GOVC_DEBUG_LOCALS") != "" {
+			fmt.Fprintf(os.Stderr, "non-local cell in %s: %s (%s) at %s\n", fnName(fr.Fn), ins.Comment, ins.Type(), e.posOf(ins.Pos()))
+		}
 		if len(e.P.allocInvs(pt.Elem())) > 0 {
 			e.allocSites = append(e.allocSites, allocSite{obj: obj, guard: st.Reach, typ: pt.Elem(), pos: ins.Pos()})
 		}
@@ -884,5 +890,6 @@ func (e *Enc) runDefers(fr *Frame, st *State) {
 		st.Heaps = merged.Heaps
 		st.Alloc = merged.Alloc
 		st.Reach = merged.Reach
+		st.Gen = merged.Gen
 	}
 }
